@@ -230,6 +230,36 @@ METHODS = {
 }
 
 
+def history_transitions(h):
+    from gemdat.transitions import Transitions, _calculate_transition_events
+
+    from . import c03, c19
+
+    states, inner = np.array(h['states'], dtype=int), np.array(h['inner'], dtype=int)
+    T, N = states.shape
+    events = gcall(_calculate_transition_events, atom_sites=states, atom_inner_sites=inner)
+    return Transitions(trajectory=c19.frame_coded(T, N), diff_trajectory=c19.frame_coded(T, N), sites=c03.dummy_sites(int(states.max()) + 1), events=events, states=states, inner_states=inner)
+
+
+def own_rates(j, n_parts):
+    """rates from this object's transitions, split and classified independently of Jumps.split"""
+    import pandas as pd
+    from gemdat.jumps import Jumps
+
+    parts = [gcall(Jumps, p, minimal_residence=j.minimal_residence, allow=(ValueError,)) for p in gcall(j.transitions.split, n_parts)]
+    if any(isinstance(p, Raised) for p in parts):
+        return None
+    counters = [gcall(p.counter) for p in parts]
+    denom = j.n_floating * j.trajectory.total_time / n_parts
+    dct = {}
+    for pair in j.site_pairs:
+        vals = [c[pair] for c in counters]
+        dct[pair] = float(np.mean(vals) / denom), float(np.std(vals, ddof=1) / denom)
+    df = pd.DataFrame(dct).T
+    df.columns = ('rates', 'std')
+    return df
+
+
 class RealMachine(LogMachine):
     def setup(self):
         self.systems = []
@@ -254,11 +284,10 @@ class RealMachine(LogMachine):
         if kind == 'Transitions':
             return tr
         if kind == 'JumpsShared':
-            # several Jumps objects with different settings over ONE shared Transitions object
-            key = k % len(self.systems)
-            if key not in self.shared:
-                self.shared[key] = tr
-            j = gcall(Jumps, self.shared[key], minimal_residence=[0, 2, 5][(k // len(self.systems)) % 3], allow=(ValueError,))
+            # several Jumps objects with different settings over ONE shared Transitions object whose history is residence-sensitive
+            if 'h' not in self.shared:
+                self.shared['h'] = history_transitions(self.histories[0])
+            j = gcall(Jumps, self.shared['h'], minimal_residence=[0, self.histories[0]['residences'][1], 1][k % 3], allow=(ValueError,))
             if isinstance(j, Raised):
                 raise Skip()
             return j
@@ -300,6 +329,10 @@ class RealMachine(LogMachine):
             if wrapped is None or name == 'metrics':
                 return name
         unc = gcall(getattr(type(o), name).__wrapped__, o, *a, **kw, allow=(ValueError, ZeroDivisionError, IndexError, KeyError))
+        if name == 'rates' and not isinstance(got, Raised):
+            own = own_rates(o, *a)
+            if own is not None and not deep_equal(got, own):
+                raise Violation('value-belongs-to-this-object', f'Jumps.rates{args} differs from the rates of this object\'s own time parts (transitions split and classified independently)')
         if not deep_equal(got, unc) or not deep_equal(got2, unc):
             raise Violation('cached-equals-uncached', f'{kind}.{name}{args}: cached value differs from an uncached recomputation on the same object (system {k}; {len(self.live)} live objects; id reuse so far {self.flags["id_reuse"]})')
         # a fresh twin built from the same system must give the same value too (nothing leaked in from another object)
@@ -322,6 +355,7 @@ class RealMachine(LogMachine):
         k = op['op']
         if k == 'init':
             self.systems = op['systems']
+            self.histories = op.get('histories', [])
             return
         if not self.systems:
             raise Skip()
@@ -363,14 +397,14 @@ class RealMachine(LogMachine):
             labels.append('more-than-128-live-objects')
         return {'nontrivial': bool(self.flags['id_reuse'] or self.flags['eviction']), 'labels': labels}
 
-    @initialize(systems=st.lists(gen.hop_systems(min_sites=2, max_sites=4, max_diff=2, max_frames=10, radius_modes=('float',)), min_size=2, max_size=3))
-    def r_init(self, systems):
+    @initialize(history=st.deferred(lambda: __import__('pbt.props.c19', fromlist=['x']).jump_split_cases('quick')), systems=st.lists(gen.hop_systems(min_sites=2, max_sites=4, max_diff=2, max_frames=10, radius_modes=('float',)), min_size=2, max_size=3))
+    def r_init(self, systems, history):
         ok = []
         for c in systems:
             want, _ = sitesys.expected_states(c)
             if not (want == -2).any() and (want[1:] != want[:-1]).any():
                 ok.append(c)
-        self.step({'op': 'init', 'systems': ok})
+        self.step({'op': 'init', 'systems': ok, 'histories': [history]})
 
     @rule(k=st.integers(0, 8), kind=st.sampled_from(['Transitions', 'Jumps', 'Jumps', 'JumpsShared', 'JumpsShared', 'TrajectoryMetrics', 'Collective', 'Trajectory']))
     def r_new(self, k, kind):
